@@ -335,10 +335,15 @@ impl<Sink: TokenSink> Tokenizer<Sink> {
     // NB: this doesn't set the current input character.
     fn eat(&self, input: &BufferQueue, pat: &str, eq: fn(&u8, &u8) -> bool) -> Option<bool> {
         if self.ignore_lf.get() {
-            self.ignore_lf.set(false);
-            if self.peek(input) == Some('\n') {
-                self.discard_char(input);
+            // The LF of a CRLF pair may not have arrived yet: wait for the next character
+            // before deciding, unless there is no more input.
+            match self.peek(input) {
+                Some('\n') => self.discard_char(input),
+                Some(_) => (),
+                None if self.at_eof.get() => (),
+                None => return None,
             }
+            self.ignore_lf.set(false);
         }
 
         input.push_front(mem::take(&mut self.temp_buf.borrow_mut()));
